@@ -185,38 +185,63 @@ def writeEncoding (u : Option String) : Encoding → LoadM XmlNode
 def textOfBytesAscii (b : Bytes) : Option String :=
   if b.all (· < 128) then some (String.ofList (b.map (fun x => Char.ofNat x.toNat))) else none
 
-def writeParameterType (u : Option String) (t : LPType) : LoadM XmlNode := do
+/-- One `<Enumeration label=… value=…/>` entry: string-encoded keys are written as text, numeric keys as numbers. -/
+def writeEnumEntry (u : Option String) (enc : Encoding) (kv : PyVal × String) : LoadM XmlNode :=
+  match (match enc, kv.1 with
+      | .str _, .bytes b => (match textOfBytesAscii b with | some s => .ok s | none => .error Err.unsupported)
+      | _, v => showNum v : LoadM String) with
+  | .error e => .error e
+  | .ok v => .ok (mkEl u "Enumeration" [("label", kv.2), ("value", v)] [])
+
+/-- `scale` / `offset` attributes of a time type's `<Encoding>`: the degree-1 / degree-0 coefficients of its
+    polynomial default calibrator. -/
+def timeScaleOffset (ne : NumEnc) : LoadM (List (String × String)) :=
+  match ne.cals.default with
+  | some (.poly cs) =>
+    match (match (cs.filter (·.exp == 1)).head? with
+        | some c => (match showCoef c with | .ok s => .ok [("scale", s)] | .error e => .error e)
+        | none => .ok [] : LoadM (List (String × String))) with
+    | .error e => .error e
+    | .ok sc =>
+      match (match (cs.filter (·.exp == 0)).head? with
+          | some c => (match showCoef c with | .ok s => .ok [("offset", s)] | .error e => .error e)
+          | none => .ok [] : LoadM (List (String × String))) with
+      | .error e => .error e
+      | .ok off => .ok (sc ++ off)
+  | some _ => .error .value
+  | none => .ok []
+
+def timeReference (u : Option String) (t : LPType) : List XmlNode :=
+  if strTruthy t.offsetFrom || strTruthy t.epoch then
+    [mkEl u "ReferenceTime" [] (
+      (if strTruthy t.offsetFrom then [mkEl u "OffsetFrom" [("parameterRef", t.offsetFrom.getD "")] []] else []) ++
+      (if strTruthy t.epoch then [mkEl u "Epoch" [] [] t.epoch] else []))]
+  else []
+
+def writeParameterType (u : Option String) (t : LPType) : LoadM XmlNode :=
   if t.tag == "AbsoluteTimeParameterType" || t.tag == "RelativeTimeParameterType" then
-    let ne ← match t.enc with | .num e => pure e | _ => throw Err.value
-    let units := match t.unit with | some x => [("units", x)] | none => []
-    let (scale, offset) ← match ne.cals.default with
-      | some (.poly cs) => do
-        let sc := (cs.filter (·.exp == 1)).head?
-        let off := (cs.filter (·.exp == 0)).head?
-        let s ← match sc with | some c => do pure [("scale", ← showCoef c)] | none => pure []
-        let o ← match off with | some c => do pure [("offset", ← showCoef c)] | none => pure []
-        pure (s, o)
-      | some _ => throw Err.value
-      | none => pure ([], [])
-    let encEl := mkEl u "Encoding" (units ++ scale ++ offset) [← writeEncoding u t.enc]
-    let refT :=
-      if strTruthy t.offsetFrom || strTruthy t.epoch then
-        [mkEl u "ReferenceTime" [] (
-          (if strTruthy t.offsetFrom then [mkEl u "OffsetFrom" [("parameterRef", t.offsetFrom.getD "")] []] else []) ++
-          (if strTruthy t.epoch then [mkEl u "Epoch" [] [] t.epoch] else []))]
-      else []
-    pure (mkEl u t.tag [("name", t.name)] ([encEl] ++ refT))
+    match t.enc with
+    | .num ne =>
+      match timeScaleOffset ne with
+      | .error e => .error e
+      | .ok so =>
+        match writeEncoding u t.enc with
+        | .error e => .error e
+        | .ok encEl =>
+          .ok (mkEl u t.tag [("name", t.name)]
+            ([mkEl u "Encoding" ((match t.unit with | some x => [("units", x)] | none => []) ++ so) [encEl]]
+              ++ timeReference u t))
+    | _ => .error .value
   else
-    let unitEl := if strTruthy t.unit then [mkEl u "UnitSet" [] [mkEl u "Unit" [] [] t.unit]] else []
-    let encEl ← writeEncoding u t.enc
-    if t.tag == "EnumeratedParameterType" then
-      let ens ← t.enumeration.mapM (fun kv => do
-        let v ← match t.enc, kv.1 with
-          | .str _, .bytes b => match textOfBytesAscii b with | some s => pure s | none => throw Err.unsupported
-          | _, v => showNum v
-        pure (mkEl u "Enumeration" [("label", kv.2), ("value", v)] []))
-      pure (mkEl u t.tag [("name", t.name)] (unitEl ++ [encEl, mkEl u "EnumerationList" [] ens]))
-    else pure (mkEl u t.tag [("name", t.name)] (unitEl ++ [encEl]))
+    match writeEncoding u t.enc with
+    | .error e => .error e
+    | .ok encEl =>
+      let unitEl := if strTruthy t.unit then [mkEl u "UnitSet" [] [mkEl u "Unit" [] [] t.unit]] else []
+      if t.tag == "EnumeratedParameterType" then
+        match t.enumeration.mapM (writeEnumEntry u t.enc) with
+        | .error e => .error e
+        | .ok ens => .ok (mkEl u t.tag [("name", t.name)] (unitEl ++ [encEl, mkEl u "EnumerationList" [] ens]))
+      else .ok (mkEl u t.tag [("name", t.name)] (unitEl ++ [encEl]))
 
 def writeParameter (u : Option String) (p : LParam) : XmlNode :=
   mkEl u "Parameter"
